@@ -20,6 +20,8 @@ type C07Case struct {
 	Method  int       `json:"method"`
 	XFFBits uint32    `json:"xff_bits"`
 	Note    string    `json:"note,omitempty"`
+	// Reshape: also feed the list through NewHeader as archives that were already laid out in another list
+	Reshape string `json:"reshape,omitempty"`
 }
 
 var methodNames = []string{"AggregationMethod(0)", "average", "sum", "last", "max", "min", "first", "mix", "percentile", "AggregationMethod(9)"}
@@ -71,6 +73,72 @@ func runC07(c C07Case, ev *Evid) (fs []Finding) {
 		if (err == nil) != wantOK {
 			add("newheader-verdict", "NewHeader accepted=%v, rules say valid=%v (%s) err=%v", err == nil, wantOK, reason, err)
 			return
+		}
+	}
+
+	// ---- entry point 1b: the same list built from archives that already went through a layout (a parsed
+	// list / a header's list, then re-sliced or extended): the verdict must not depend on that history
+	stepsPositive := true
+	for _, a := range c.List {
+		if a.Step <= 0 || a.Points <= 0 {
+			stepsPositive = false
+		}
+	}
+	if goTypes && stepsPositive && c.Reshape != "" && len(c.List) >= 1 {
+		donor := []RawArch{{Step: 1, Points: 7}}
+		donor = append(donor, c.List...)
+		ok := true
+		for i := 0; i+1 < len(donor); i++ {
+			a, b := donor[i], donor[i+1]
+			if !(a.Step < b.Step && b.Step%a.Step == 0 && a.Step*a.Points < b.Step*b.Points && a.Points >= b.Step/a.Step) {
+				ok = false
+			}
+		}
+		if v, _ := ValidLayout(donor); ok && v == Valid {
+			var dl wt.ArchiveInfoList
+			for _, a := range donor {
+				dl = append(dl, wt.NewArchiveInfo(wt.Duration(a.Step), uint32(a.Points)))
+			}
+			if hd, err := wt.NewHeader(wt.Sum, 0, dl); err == nil {
+				var derived wt.ArchiveInfoList
+				switch c.Reshape {
+				case "tail-of-header-list":
+					derived = hd.ArchiveInfoList()[1:]
+				default: // copy of the tail elements
+					derived = append(wt.ArchiveInfoList(nil), hd.ArchiveInfoList()[1:]...)
+				}
+				var err2 error
+				if pm := guard(func() { _, err2 = wt.NewHeader(wt.AggregationMethod(c.Method), xff, derived) }); pm != "" {
+					add("newheader-panic", "NewHeader on a re-sliced list panicked: %s", pm)
+					return
+				}
+				if (err2 == nil) != wantOK {
+					add("newheader-verdict-reshaped", "NewHeader on the same archives taken from another header's list (%s) accepted=%v, rules say valid=%v (%s) err=%v", c.Reshape, err2 == nil, wantOK, reason, err2)
+					return
+				}
+			}
+		}
+	}
+	if goTypes && c.Reshape == "parsed-prefix" && lv == Valid && len(c.List) >= 2 {
+		var parts []string
+		for _, a := range c.List {
+			if a.Step*a.Points > math.MaxInt32 {
+				parts = nil
+				break
+			}
+			parts = append(parts, printDurExact(a.Step)+":"+printDurExact(a.Step*a.Points))
+		}
+		if parts != nil {
+			if pl, err := wt.ParseArchiveInfoList(strings.Join(parts, ",")); err == nil {
+				// every prefix / suffix of a valid list is a valid list
+				for _, sub := range []wt.ArchiveInfoList{pl[:len(pl)-1], pl[1:]} {
+					var err2 error
+					if pm := guard(func() { _, err2 = wt.NewHeader(wt.Sum, 0.5, append(wt.ArchiveInfoList(nil), sub...)) }); pm != "" || err2 != nil {
+						add("newheader-verdict-reshaped", "NewHeader rejected a sub-list (%v) of a parsed valid list: %v %s", sub, err2, pm)
+						return
+					}
+				}
+			}
 		}
 	}
 
@@ -400,6 +468,7 @@ func genC07(t *rapid.T) C07Case {
 	default:
 		c.Note = "valid-plain"
 	}
+	c.Reshape = rapid.SampledFrom([]string{"", "", "tail-of-header-list", "copied-tail", "parsed-prefix"}).Draw(t, "reshape")
 	return c
 }
 
